@@ -459,8 +459,40 @@ func Unlock(idp interface{}, unlock func()) {
 	mu.Unlock()
 }
 
+var (
+	onceMu   sync.Mutex
+	onceBusy = map[uintptr]bool{}
+	siteOnce = Site("sync.Once.Do")
+)
+
+// onceEnter/onceLeave make concurrent Do calls on one Once exclude each other through the
+// simulated lock machinery: sync.Once's own mutex cannot be try-locked, and a goroutine
+// blocked on it while the first caller's f is parked (f may block: gpool.Release waits for
+// the dispatcher) is not a durable block, which would hang the bubble.
+func onceEnter(idp interface{}) {
+	id := ptrOf(idp)
+	Lock(idp, func() bool {
+		onceMu.Lock()
+		defer onceMu.Unlock()
+		if onceBusy[id] {
+			return false
+		}
+		onceBusy[id] = true
+		return true
+	}, func() {}, siteOnce)
+}
+
+func onceLeave(idp interface{}) {
+	id := ptrOf(idp)
+	Unlock(idp, func() {
+		onceMu.Lock()
+		delete(onceBusy, id)
+		onceMu.Unlock()
+	})
+}
+
 // OnceDo runs once.Do(f) with f as an atomic section.
-func OnceDo(do interface{}, f interface{}) {
+func OnceDo(idp interface{}, do interface{}, f interface{}) {
 	dv, fv := reflect.ValueOf(do), reflect.ValueOf(f)
 	if !active.Load() || stopped.Load() {
 		dv.Call([]reflect.Value{fv})
@@ -471,6 +503,8 @@ func OnceDo(do interface{}, f interface{}) {
 		dv.Call([]reflect.Value{fv})
 		return
 	}
+	onceEnter(idp)
+	defer onceLeave(idp)
 	w := reflect.MakeFunc(fv.Type(), func(args []reflect.Value) []reflect.Value {
 		g.atom++
 		defer func() { g.atom-- }()
@@ -480,7 +514,7 @@ func OnceDo(do interface{}, f interface{}) {
 }
 
 // OnceDoErr is OnceDo for Do methods that return a value (tars/util/sync.Once).
-func OnceDoErr(do interface{}, f interface{}) []reflect.Value {
+func OnceDoErr(idp interface{}, do interface{}, f interface{}) []reflect.Value {
 	dv, fv := reflect.ValueOf(do), reflect.ValueOf(f)
 	if !active.Load() || stopped.Load() {
 		return dv.Call([]reflect.Value{fv})
@@ -489,6 +523,8 @@ func OnceDoErr(do interface{}, f interface{}) []reflect.Value {
 	if g.outside {
 		return dv.Call([]reflect.Value{fv})
 	}
+	onceEnter(idp)
+	defer onceLeave(idp)
 	w := reflect.MakeFunc(fv.Type(), func(args []reflect.Value) []reflect.Value {
 		g.atom++
 		defer func() { g.atom-- }()
